@@ -275,6 +275,14 @@ impl VisitMut for Rw {
                 self.bump("R11_linear_index_read");
                 return;
             }
+            // R6: `Ok(())` of fmt::Result
+            if let Expr::Call(c) = e {
+                if c.args.len() == 1 && matches!(&*c.func, Expr::Path(p) if p.path.is_ident("Ok")) && matches!(&c.args[0], Expr::Tuple(t) if t.elems.is_empty()) {
+                    *e = parse_quote!(fmt_ok());
+                    self.bump("R6_ok_unit");
+                    return;
+                }
+            }
             // R6
             if let Expr::Try(t) = e {
                 let inner = (*t.expr).clone();
